@@ -8,15 +8,60 @@ from harness.core import Outcome, f2b, b2f
 
 ID = "C06"
 LEAN_TARGETS = ["BeyondVerif.Props.C06"]
-THEOREMS = []
-LEVEL_TEXT = ""
-LEVEL_NOTE = ""
-TECHNIQUE = ""
-TRUSTED = []
-ASSUMPTIONS = []
-NOT_COVERED = []
-OPEN = []
-RULE = ""
+THEOREMS = ["BeyondVerif.C06." + t for t in [
+    "trees_orders_gammas", "euler_order1", "rk4_order4", "rkf54_b_order5", "rkf54_bstar_order4", "dopri54_b_order5", "dopri54_bstar_order4",
+    "butcher_cases", "tableaux_wellformed", "row_sums", "dopri_fsal_row",
+    "accel_newton", "accel_central", "accel_energy",
+    "fixed_step_single", "adaptive_accepts_within_tol", "accepted_at_once",
+    "quadrature_exact_euler", "quadrature_exact_rk4", "quadrature_exact_rkf54", "quadrature_exact_dopri54",
+    "linear_test_euler", "linear_test_rk4", "linear_test_order5",
+    "step_scale_law", "step_scale_shrinks", "step_scale_shrinks_backward",
+]]
+LEVEL_TEXT = ("Lean theorems over R about the four Butcher tableaux, the per-body attraction, the step-size update and MAX_ITER translated from "
+              "keplernum.py on every run: all rooted-tree order conditions (Euler 1; RK4 all 8 up to order 4; RKF54 and DOPRI54 all 17 up to order 5 for "
+              "the propagated weights, all 8 up to order 4 for the embedded weights), row sums and shape for every integrator, FSAL row; the modelled "
+              "field is Newton's law, central and energy-conserving; for the modelled step: exact quadrature of polynomial right-hand sides of degree < p "
+              "for every step size, Taylor polynomial of exp on the linear test equation, an adaptive step is only accepted with its estimate <= tol, a "
+              "rejected step strictly shrinks and keeps its sign. The step model is tied to KeplerNum._make_step/_accel by a differential correspondence run.")
+LEVEL_NOTE = ("the classical theorem 'order conditions up to p => global convergence at order p' is cited, not formalised; convergence of the real propagator, "
+              "first-integral drift and resampling independence are searched by the oracle only; R -> double gap covered by tolerance-bounded correspondence; "
+              "Lean kernel + propext/Classical.choice/Quot.sound; AST translator and harness trusted")
+TECHNIQUE = ("Lean 4 proof (norm_num / ring / rpow lemmas / induction on fuel) over tables and formulas regenerated from the Python AST; "
+             "differential correspondence of the compiled step model with KeplerNum._make_step/_accel")
+TRUSTED = [
+    "harness/props/C06.py: extract() reads BUTCHER (entries kept as the source's rational expressions), the body of `for body in self.bodies` of _accel, "
+    "the step-size update statement and MAX_ITER of _make_step from the AST into Generated/KeplerNum{F,R}.lean on every run; the tableau reading is "
+    "self-checked bit-exactly against the live KeplerNum.BUTCHER, and the compiled Float instantiation is compared with it again in the correspondence run",
+    "lean/templates/RK.tpl (hand-written stage loop, weight combination, error estimate, accept/shrink loop), tied by the correspondence run",
+    "harness/py2lean.py Tr.expr for scalar entries",
+    "numpy / libm double arithmetic vs R: tolerance 1e-11 relative on the step result",
+]
+ASSUMPTIONS = [
+    "point-mass bodies, no maneuvers (ImpulsiveMan/ContinuousMan handling of _make_step/_accel belongs to C17); tol > 0",
+    "theorems are over R; the implementation computes in IEEE doubles; dates/steps have microsecond resolution (usRound in the model)",
+    "cited, not formalised: order conditions for all rooted trees with <= p vertices imply local error O(h^(p+1)) and global convergence at order p "
+    "(Butcher; Hairer-Norsett-Wanner, Solving ODEs I, II.2-II.3); the list of the 17 trees with <= 5 vertices is hand-written (orders and densities proved)",
+    "the embedded error estimate p_error is a cancelling sum (sum(b - b_star) = 0): passes whose estimate lies within 2e-16 |h||v| of tol are "
+    "incomparable between numpy's and the model's summation order and are skipped by the correspondence (counted as step-borderline-skipped)",
+]
+NOT_COVERED = [
+    "global convergence of the real propagator at order p, energy / angular-momentum drift bounds, adaptive error per step and over a span: oracle only "
+    "(observed order by step halving, error bounds scaled by (n_p h)^p resp. tol, one-step local error <= 2 tol)",
+    "resampling accuracy (Ephem Lagrange-8 over float MJD): oracle only. The 'few millimetres' of the property hold for n_p*h <= 0.05; the floor is "
+    "6 ulp(MJD) x speed (up to 15 mm observed at perigee speed, edge interval) and the Lagrange remainder reaches decimetres to metres for the coarsest "
+    "steps in low eccentric orbits (observed 7 m at h = 120 s, e = 0.6, perigee 200 km), tolerance 5 rp (n_p h)^8 there",
+    "_iter's bookkeeping (pre-positioning loop, padding to 8 points, date accumulation): oracle only here; the iteration contract is C08 "
+    "(iter(stop=..., step=...) also yields dates after `stop`, up to the first integration node past it — reported to C08)",
+    "targets within +-3 orbits are reached by the thorough tier only up to 900 integration steps per run (quick: 110)",
+]
+OPEN = ["accel_energy is the algebraic identity v.a + mu (r.v)/rho^3 = 0; the HasDerivAt form (the attraction is the gradient of mu/rho) is not stated",
+        "quadrature exactness and the linear test equation are stated per tableau with explicit polynomial coefficients, not as one theorem "
+        "'bushy/tall-tree conditions => exactness' for an arbitrary tableau"]
+RULE = ("correspondence: the five method names incl. unknown ones (tableaux bit-exact), _accel with Earth/Moon/Sun combinations on random bound orbits "
+        "(perigee 200 km .. GEO+, e <= 0.74), _make_step for all four methods, steps 5-120 s both signs, tol 1e-9..1e-2, rtol 1e-11 (step size exact when "
+        "not shrunk); non-trivial = step != 0; distinct = distinct request line. oracle: RK4/Euler observed order by step halving against an independent "
+        "universal-variable Kepler solution, error bounds, energy/momentum drift, adaptive global and one-step error, independence of output step, "
+        "dates-vs-step, propagate-vs-iterate, chained propagate keeps (method, step, tol); forward and backward targets")
 
 KN_PY = os.path.join(core.REPO, "beyond", "propagators", "keplernum.py")
 METHODS = ["euler", "rk4", "rkf54", "dopri54"]
@@ -398,7 +443,7 @@ def correspondence(ctx):
         out.count(key=reqs[-1], kind="tableau", known=real != "unknown-name")
     # 2. _accel
     moon, sun = get_body("Moon"), get_body("Sun")
-    for _ in range(ctx.n(400, 20000)):
+    for _ in range(ctx.n(800, 20000)):
         o = gen_orbit(rng, mu)
         date = epoch() + timedelta(seconds=q(rng.uniform(0, 3e7)))
         bodies = rng.choice([[E], [E], [E, moon], [E, moon, sun], [moon], [sun, E]])
@@ -417,7 +462,7 @@ def correspondence(ctx):
         meta.append(("accel", real, {"x0": o["x0"], "bodies": [b.name for b in bodies], "scales": [np.linalg.norm(o["x0"][3:])] * 3 + [a_scale] * 3}))
         out.count(key=reqs[-1], kind="accel", bodies="+".join(b.name for b in bodies))
     # 3. _make_step
-    for _ in range(ctx.n(1500, 100000)):
+    for _ in range(ctx.n(3200, 100000)):
         o = gen_orbit(rng, mu)
         m = rng.choice(METHODS)
         maxstep = q(rng.uniform(5, 120)) if rng.random() < 0.9 else rng.choice([5.0, 120.0])
@@ -681,10 +726,14 @@ def check_chained(out, o, h, T, mu, method, tol):
     out.count(key=("chained", method, h, T, tol, o["rp"]), kind="chained-" + method)
     p2 = mid.propagator
     adaptive = method in ADAPTIVE
-    got = (p2.method, p2.step.total_seconds(), getattr(p2, "tol", None) if adaptive else None)
-    if got != (method, orb.propagator.step.total_seconds(), tol if adaptive else None):
-        out.fail("chained-propagate-settings", "the orbit returned by propagate carries a propagator with different integrator settings (method, step, tol)",
-                 inp, observed=list(got), expected=[method, h, tol])
+    got = {"method": p2.method, "step": p2.step.total_seconds(), "tol": getattr(p2, "tol", None) if adaptive else None}
+    want = {"method": method, "step": orb.propagator.step.total_seconds(), "tol": tol if adaptive else None}
+    lost = [k for k in ("method", "step", "tol") if got[k] != want[k]]
+    if lost:
+        # family = which settings are lost: a different lost setting is a different defect
+        out.fail("propagate-result-settings-" + "+".join(lost),
+                 "the orbit returned by propagate carries a propagator whose integrator settings differ from the chosen ones: a split request continues with other settings",
+                 inp, observed=got, expected=want)
     end = vec(mid.propagate(timedelta(seconds=q(T - T1))))
     if not _finite(out, method, "chained propagate", inp, end):
         return
@@ -704,8 +753,8 @@ def oracle(ctx, widened):
     rng = ctx.rng
     mu = float(earth().µ)
     big = widened or ctx.thorough
-    ncases = 120 if big else 14
-    cap = 900 if big else 110     # integration steps per run (the +-3 orbit quantifier is reached in the thorough tier)
+    ncases = 120 if big else 32
+    cap = 900 if big else 130     # integration steps per run (the +-3 orbit quantifier is reached in the thorough tier)
     for k in range(ncases):
         o = gen_orbit(rng, mu)
         h = q(rng.uniform(5, 120)) if rng.random() < 0.8 else rng.choice([5.0, 120.0, 60.0])
